@@ -746,7 +746,7 @@ func TestVerif_C03(t *testing.T) {
 	defer rec.Write(t)
 	base, cleanup := vh.ScratchDir(t, "c03-")
 	defer cleanup()
-	vh.Check(t, "cuts", 12, 5, func(rt *rapid.T) { c03Case(rt, rec, base) })
+	vh.Check(t, "cuts", 10, 5, func(rt *rapid.T) { c03Case(rt, rec, base) })
 	rec2 := vh.NewRecorder("C03", "first_commit", "fault_enumeration", c03FirstRule,
 		"the manifest of the interrupted first commit is taken as observed right after that commit returned: ChunkJournal.Update writes it (flushToBackingManifest) before commitRootHash flushes the journal, and nothing rewrites it in between")
 	defer rec2.Write(t)
